@@ -8,7 +8,9 @@ import (
 )
 
 var pieces = []string{"a", "b", "c", "ab", "a/b", "/", "refs/", "heads/", "tags/", "x", "y", "z", "0", "1", "9",
-	"\x01", "\xff", "~", "-", ".", "HEAD", "main", "\x7f", "\x80", " "}
+	"\x01", "\xff", "~", "-", ".", "HEAD", "main", "\x7f", "\x80", " ",
+	// multi-byte UTF-8 sequences that differ only in a continuation byte
+	"caf\xc3\xa9", "caf\xc3\xaa", "\xe6\x97\xa5", "\xe6\x97\xa6", "\xf0\x9f\x98\x80", "\xf0\x9f\x98\x81"}
 
 var blockSizes = []uint32{0, 64, 64, 72, 80, 96, 100, 128, 128, 137, 160, 200, 256, 256, 300, 512, 1024, 4096, 65536}
 
